@@ -989,6 +989,7 @@ func checkC16(c *Ctx) {
 		workers = 2
 	}
 	self, _ := os.Executable()
+	c16RunProbes(c, self)
 	work := c.WorkDir
 	if work == "" {
 		work, _ = os.MkdirTemp("", "c16")
